@@ -49,7 +49,7 @@ def sigs(n):
         pass
     return out
 base = sigs("m0")
-want = {"m1": "cctl-invalidation-time-older-than-last-write-while-earlier-query-entries-may-live",
+want = {"m1": "cctl-stale-query-answer-after-completed-invalidation",
         "m2": "cctl-stale-iterator-read-after-completed-invalidation", "m3": "cctl-stale-iterator-read-after-completed-invalidation",
         "m4": "cctl-stale-iterator-read-after-completed-invalidation", "m5": "cctl-stale-iterator-read-after-completed-invalidation"}
 print("unchanged tree:", sorted(base))
